@@ -245,6 +245,14 @@ class Interp:
         if p.off in o.cells and o.cells[p.off][0] == nbytes:
             return o.cells[p.off][1]
         if isptr:
+            if p.obj.startswith("G@") and not o.bytes:
+                # an external pointer variable (PyExc_OSError, ...): an opaque object, the same one on every load
+                k = "X" + p.obj[1:]
+                if k not in st.objs:
+                    st.objs[k] = Obj(k, 16)
+                v = Ptr(k, 0, 0, 16)
+                o.cells[p.off] = (nbytes, v)
+                return v
             raise NotImplementedError(f"pointer load from raw bytes {p}")
         bs = []
         for i in range(nbytes):
